@@ -30,6 +30,8 @@ CHECKS = {
          "TLC exhaustive small-scope TLV scanner + trace validation of real FromBytes/ParseOption calls against Dec6"),
  "C17": ("6", "Dhcp4Opts.tla: RFC interpretation of every typed DHCPv4 option value (model-checked over every raw value of a small alphabet: total, ok exactly at the right lengths, never a partial value, set/get); every recorded accessor result for raw values of every length 0..64 (absent, zero, ones, type-structured random), long split values, and set->get through every typed constructor is validated by TLC",
          "TLC model check of Dhcp4Opts.tla + trace validation of real accessor calls"),
+ "C16": ("6", "Dhcp6Build.tla: relay encapsulation/decapsulation and the advertise/request/reply/relay-reply builders as operators over the Dhcp6Wire value trees; a relay-chain machine is model-checked (decap(encap(m)) = m, hop count, innermost message at any depth also after Dec6(Enc6(.)), relay-reply mirrors every level); every recorded builder/relay call on generated chains of depth 1..16 and inner messages of every type is validated by TLC",
+         "TLC model check of the relay-chain machine + trace validation of real builder calls"),
 }
 
 def main():
